@@ -102,7 +102,7 @@ class Declare(HarnessBase):
     def __init__(self, func, ka, kb, pa=None, pb=None, pre=None, same=False):
         self.func, self.ka, self.kb = func, ka, kb
         self.pa, self.pb = dict(pa or {}), dict(pb or {})
-        self.pre = pre        # None | 'a_drives_c' | 'c_drives_b'
+        self.pre = pre        # None | 'a_drives_c' | 'c_drives_b' | 'reversed_worm'
         self.same = same
         self.name = 'declare:%s:%s->%s%s%s' % (func, ka, 'itself' if same else kb, ':' + pre if pre else '',
                                               ':' + _ptag(self.pa, self.pb))
@@ -125,6 +125,10 @@ class Declare(HarnessBase):
             names[id(c)] = 'c'
             if self.pre == 'a_drives_c':
                 add_fixed_joint(master=a, slave=c)
+            elif self.pre == 'reversed_worm':
+                # the same worm pair was declared the other way round before (worm master: self-locking friction
+                # 0.5; wheel master: friction 0.01): flags left by that declaration must not survive the new one
+                add_worm_gear_mating(master=b, slave=a, friction_coefficient=0.5 if self.kb == 'worm' else 0.01)
             else:
                 add_fixed_joint(master=c, slave=b)
         before = (state(a, names), state(b, names))
@@ -328,6 +332,9 @@ def specs(tier, seed):
             if pre == 'c_drives_b' and kb == 'motor':
                 continue
             cells.append((f, ka, kb, pa_, pb_, pre, False))
+    for ka, kb in (('wheel', 'worm'), ('worm', 'wheel')):
+        for pa in (20.0, 14.5):
+            cells.append(('worm', ka, kb, (('pa', pa), ('helix', 10.0)), (('pa', pa), ('helix', 10.0)), 'reversed_worm', False))
     out = []
     n = 24
     for i in range(0, len(cells), n):
